@@ -1275,3 +1275,35 @@ Lemma no_pending_work_when_quiescent : forall tr s, run init tr = Some s ->
   (forall l, worker_label l = true -> step s l = None) ->
   qtasks (queue s) = [] /\ running s = [] /\ rchan s = [] /\ Permutation (done s ++ panicked s) (submitted s).
 Proof. intros tr s Hr Hq. exact (quiescent_no_work false s (reachable_inv tr s Hr) Hq). Qed.
+
+(* every submitted id is handed to a worker at most once along a trace, and exactly once when nothing is left queued *)
+Lemma each_task_received_once : forall tr s, run init tr = Some s ->
+  NoDup (flat_map recv_of tr) /\ (qtasks (queue s) = [] -> flat_map recv_of tr = submitted s).
+Proof.
+  intros tr s Hr. destruct (fifo_order tr s Hr) as (A & _).
+  pose proof (i_nodup s (reachable_inv tr s Hr)) as ND. rewrite <- A in ND.
+  split; [now apply NoDup_app_l in ND|]. intros Hq. rewrite Hq, app_nil_r in A. exact A.
+Qed.
+
+(* a pending recovery request is served after the requests queued before it: "Recover w is eventually enabled" *)
+Lemma recover_eventually : forall old l1 s w l2, Inv s -> rchan s = l1 ++ w :: l2 ->
+  exists s1 s2, run_gen old s (map Recover l1) = Some s1 /\ step_gen old s1 (Recover w) = Some s2 /\
+                ws s2 w = Idle /\ queue s2 = queue s /\ done s2 = done s /\ rchan s2 = l2.
+Proof.
+  intros old. induction l1 as [|h l1 IH]; intros s w l2 HI Hr; cbn [map run_gen app] in *.
+  - destruct (recover_head_enabled old s w l2 HI Hr) as (s2 & Hs2).
+    exists s, s2. split; [reflexivity|]. split; [exact Hs2|].
+    destruct (recover_touches_only_w old s w s2 Hs2) as ((_ & Hq & _ & Hd & _) & Hrc & Hi & _).
+    repeat split; try assumption. rewrite Hr in Hrc. now injection Hrc.
+  - destruct (recover_head_enabled old s h (l1 ++ w :: l2) HI Hr) as (s' & Hs'). rewrite Hs'.
+    pose proof (step_inv_preserved old s (Recover h) s' HI Hs') as HI'.
+    destruct (recover_touches_only_w old s h s' Hs') as ((_ & Hq & _ & Hd & _) & Hrc & _ & _).
+    assert (Hr' : rchan s' = l1 ++ w :: l2) by (rewrite Hr in Hrc; now injection Hrc).
+    destruct (IH s' w l2 HI' Hr') as (s1 & s2 & A & B & C & D & E & F).
+    exists s1, s2. repeat split; try assumption; congruence.
+Qed.
+
+Lemma recover_eventually_reachable : forall tr s, run init tr = Some s -> forall l1 w l2, rchan s = l1 ++ w :: l2 ->
+  exists s1 s2, run s (map Recover l1) = Some s1 /\ step s1 (Recover w) = Some s2 /\
+                ws s2 w = Idle /\ queue s2 = queue s /\ done s2 = done s /\ rchan s2 = l2.
+Proof. intros tr s Hr l1 w l2 Hc. exact (recover_eventually false l1 s w l2 (reachable_inv tr s Hr) Hc). Qed.
